@@ -98,6 +98,7 @@ func (pkh *eonPubKeyHandler) queryAndHandleNewEonPubKeys(ctx context.Context) er
 	if err != nil {
 		return err
 	}
+	var handlingErr error
 	for _, eonPublicKey := range eonPublicKeys {
 		_, exists := database.GetKeyperIndex(pkh.config.GetAddress(), eonPublicKey.Keypers)
 		if !exists {
@@ -121,14 +122,22 @@ func (pkh *eonPubKeyHandler) queryAndHandleNewEonPubKeys(ctx context.Context) er
 			KeyperConfigIndex: keyperIndex,
 			Eon:               eon,
 		}
+		// All pending keys have been deleted from the database above, so every one of them has
+		// to be handed over in this call: keep going after the first key (and after a failure)
+		// and report the first error at the end.
 		if pkh.broadcastEonPubKey {
 			err := pkh.broadcastEonPublicKey(ctx, eonPubKey)
-			return errors.Wrap(err, "failed to broadcast eon public key")
+			if err != nil && handlingErr == nil {
+				handlingErr = errors.Wrap(err, "failed to broadcast eon public key")
+			}
+			continue
 		}
 		if pkh.eonPubkeyHandler != nil {
 			err := pkh.eonPubkeyHandler(ctx, eonPubKey)
-			return errors.Wrap(err, "failed to handle eon public key")
+			if err != nil && handlingErr == nil {
+				handlingErr = errors.Wrap(err, "failed to handle eon public key")
+			}
 		}
 	}
-	return nil
+	return handlingErr
 }
